@@ -7,6 +7,7 @@ from .. import bits, paths
 from ..core import call_attr, calls_in, const, dotted, is_const, kwarg, norm, slice_parts, text, walk_local
 
 EXPLANATION = [
+    'C08.poll: the receiver-ready poll carries P=1 (F=0), both bits are forwarded into the S-frame, a frame received with P=1 is answered with F=1, and a frame with F=1 cancels the sender\'s monitor timer: the poll/final handshake closes.',
     'C08.peer-params: the TxWindow / MaxTransmit / MPS the ERTM sender obeys are the ones unpacked from the peer\'s Configure Request (same field order as packed), forwarded by name through the factory and stored under their own names.',
     'C08.ctrl-bits: parse and serialise bit layouts of the I-frame and S-frame '
     'enhanced control fields agree field by field and no two serialised fields '
@@ -460,7 +461,41 @@ def peer_params(ctx):
     R.check(ok, rule, f'ClassicChannel.{f.name} | forwards the peer\'s option', 'peer_* values unpacked from the Configure Request go to the processor under their own names', 'the processor is not given the values the peer sent in its Configure Request', p.loc(f))
 
 
+
+def poll_final(ctx):
+    """The poll the sender emits is the frame the receiver answers, and the answer is what releases the sender."""
+    R, p = ctx.r, ctx.p
+    rule = 'C08.poll'
+    ci = p.cls(ERTM)
+    if ci is None:
+        R.bad(rule, ERTM, 'anchor missing')
+        return
+    sp = ci.methods.get('_send_receiver_ready_poll')
+    ss = ci.methods.get('_send_s_frame')
+    onp = ci.methods.get('on_pdu')
+    upd = ci.methods.get('_update_ack_seq')
+    if not (sp and ss and onp and upd):
+        R.bad(rule, f'{ERTM}._send_receiver_ready_poll/_send_s_frame/on_pdu/_update_ack_seq', 'anchor missing')
+        return
+    c = next((c for c in calls_in(sp) if dotted(c.func) == 'self._send_s_frame'), None)
+    pl = const(kwarg(c, 'poll')) if c is not None and kwarg(c, 'poll') is not None and is_const(kwarg(c, 'poll')) else None
+    fn_ = const(kwarg(c, 'final')) if c is not None and kwarg(c, 'final') is not None and is_const(kwarg(c, 'final')) else None
+    R.check(pl == 1 and fn_ == 0, rule, f'{ERTM}._send_receiver_ready_poll | P bit', 'the poll is an RR with P=1, F=0', f'the receiver-ready poll is sent with poll={pl}, final={fn_}: the peer only answers frames with P=1, so the sender waits forever once acknowledgements are late', p.loc(sp))
+    ctor = next((c for c in calls_in(ss) if call_attr(c) == 'SupervisoryEnhancedControlField' or dotted(c.func) == 'SupervisoryEnhancedControlField'), None)
+    kw = {k.arg: norm(k.value) for k in ctor.keywords} if ctor is not None else {}
+    R.check(kw.get('poll') == 'poll' and kw.get('final') == 'final', rule, f'{ERTM}._send_s_frame | bits forwarded', 'poll and final reach the control field', f'S-frame built with {kw}', p.loc(ss))
+    # receiver: a polled RR/RNR is answered with F=1
+    ans = [c for c in calls_in(onp) if dotted(c.func) == 'self._send_s_frame' and any((norm(t), pol) == ('control_field.poll', True) for t, pol in paths.flat_guards(c))]
+    ok = bool(ans) and all(is_const(kwarg(a, 'final')) and const(kwarg(a, 'final')) == 1 for a in ans)
+    R.check(ok, rule, f'{ERTM}.on_pdu | poll answered with F=1', 'a frame with P=1 is answered by RR with F=1', 'a polled frame is not answered with the F bit set', p.loc(onp))
+    # sender: F=1 cancels the monitor
+    first = next((c for c in calls_in(onp) if dotted(c.func) == 'self._update_ack_seq'), None)
+    ok = first is not None and len(first.args) == 2 and 'final' in norm(first.args[1]) and any(isinstance(n, ast.If) and 'is_poll_response' in norm(n.test) and any(norm(x) == 'self._monitor_handle = None' for x in n.body) for n in walk_local(upd))
+    R.check(ok, rule, f'{ERTM}._update_ack_seq | F=1 releases the sender', 'a frame with F=1 cancels the monitor timer', 'the answer to a poll does not release the sender', p.loc(upd))
+
+
 RULES = [
+    ('C08.poll', poll_final),
     ('C08.peer-params', peer_params),
     ('C08.ctrl-bits', ctrl_bits),
     ('C08.seq', seq),
